@@ -74,7 +74,7 @@ Section Cycle.
     - intros [= <- <-]. assert (In m0 ms) by (eapply nth_error_In; eassumption).
       repeat split; try assumption.
       + unfold subscribed. now rewrite Ed.
-      + apply Nat.mod_upper_bound. destruct ms; [destruct H | discriminate].
+      + apply Nat.mod_upper_bound. intro E0. apply length_zero_iff_nil in E0. rewrite E0 in H. destruct H.
       + exists pos. split; [assumption | reflexivity].
     - apply IH.
   Qed.
